@@ -240,6 +240,11 @@ func newTelemetryReport(t *telemetry.Report, cfg *config.Config) (*telemetryRepo
 		for k, v := range p.Counters {
 			counters[k] = uint64(v)
 		}
+		// Stack counters are counters too: summary tells them apart by
+		// the newline in their names.
+		for k, v := range p.Stacks {
+			counters[k] = uint64(v)
+		}
 		prgms = append(prgms, &telemetryProgram{
 			ProgramReport: p,
 			ID:            strings.Join([]string{"reports", t.Week, p.Program, p.Version, p.GOOS, p.GOARCH, p.GoVersion}, ":"),
